@@ -527,26 +527,33 @@ fn b64(s: &str) -> Vec<u8> {
     out
 }
 
+/// RFC 3110 §2: split the public key field of an RSA DNSKEY into exponent and
+/// modulus (own reading; no validity judgement beyond "the octets are there").
+fn rsa_split(pubkey: &[u8]) -> Option<(&[u8], &[u8])> {
+    let (l, off) = match pubkey {
+        [] => return None,
+        [0, hi, lo, ..] => (u16::from_be_bytes([*hi, *lo]) as usize, 3),
+        [0, ..] => return None,
+        [l, ..] => (*l as usize, 1),
+    };
+    if pubkey.len() < off + l {
+        return None;
+    }
+    Some((&pubkey[off..off + l], &pubkey[off + l..]))
+}
+
 /// Verification with ring called directly (not through the library).
 fn ring_verify(alg: u8, pubkey: &[u8], msg: &[u8], sig: &[u8]) -> bool {
     use ring::signature as rs;
     match alg {
-        8 | 10 => {
-            // RFC 3110 §2 public key format
-            if pubkey.is_empty() {
-                return false;
-            }
-            let (e, n) = if pubkey[0] != 0 {
-                let l = pubkey[0] as usize;
-                (&pubkey[1..1 + l], &pubkey[1 + l..])
-            } else {
-                let l = u16::from_be_bytes([pubkey[1], pubkey[2]]) as usize;
-                (&pubkey[3..3 + l], &pubkey[3 + l..])
-            };
-            let params = if alg == 8 {
-                &rs::RSA_PKCS1_2048_8192_SHA256
-            } else {
-                &rs::RSA_PKCS1_2048_8192_SHA512
+        5 | 7 | 8 | 10 => {
+            // RFC 3110 §2 public key format; RFC 3110 / 5702: PKCS#1 v1.5 with
+            // SHA-1 (5, 7), SHA-256 (8), SHA-512 (10); 1024-bit keys and up
+            let Some((e, n)) = rsa_split(pubkey) else { return false };
+            let params = match alg {
+                5 | 7 => &rs::RSA_PKCS1_1024_8192_SHA1_FOR_LEGACY_USE_ONLY,
+                8 => &rs::RSA_PKCS1_1024_8192_SHA256_FOR_LEGACY_USE_ONLY,
+                _ => &rs::RSA_PKCS1_1024_8192_SHA512_FOR_LEGACY_USE_ONLY,
             };
             rs::RsaPublicKeyComponents { n, e }.verify(params, msg, sig).is_ok()
         }
@@ -1237,9 +1244,11 @@ fn entry_name(e: u8) -> &'static str {
     }
 }
 
-fn sig_len(alg: u8) -> usize {
+/// Length of a signature made with a key: RFC 3110 §3 / RFC 5702 §3 (as long
+/// as the modulus), RFC 6605 §4, RFC 8080 §4.
+fn sig_len(alg: u8, pubkey: &[u8]) -> usize {
     match alg {
-        8 | 10 => 256,
+        5 | 7 | 8 | 10 => rsa_split(pubkey).map(|(_, n)| n.len()).unwrap_or(0),
         13 | 15 => 64,
         14 => 96,
         _ => 0,
@@ -1592,7 +1601,7 @@ fn judge_rrsig(env: &Env, x: &Expect, rrs: Vec<RawRR>, rec: &Record<LName, LSig>
     if lower_labels(&sig.signer) != lower_labels(&labels(SIGNER_NAMES[x.si])) {
         bad.push(("signer-name", name_text(&sig.signer)));
     }
-    if sig.sig.len() != sig_len(key.alg) {
+    if sig.sig.len() != sig_len(key.alg, &key.pubkey) {
         bad.push(("signature-length", format!("{}", sig.sig.len())));
     }
     for (f, w) in &bad {
@@ -2928,31 +2937,20 @@ fn ref_key_size(alg: u8, pubkey: &[u8]) -> Option<usize> {
     }
 }
 
-fn key_form_checks(env: &Env, form_keys: &[KeyMat], all_keys: &[KeyMat], l: &mut Local) {
-    use domain::crypto::common::PublicKey as LibPublicKey;
-    use domain::crypto::sign::{generate, GenerateParams, SignRaw};
-    let viol = |sig: String, what: String, rp: Value| {
-        env.ctx.violation(&sig, &what, rp);
-    };
-    let small: Vec<(usize, usize)> = {
-        // (type index, owner index) of the RRsets signed with every key form
-        let mut v = Vec::new();
-        for mn in ["A", "MX", "TXT"] {
-            let ti = env.types.iter().position(|t| t.mn == mn).unwrap();
-            for oi in [0usize, 3] {
-                v.push((ti, oi));
-            }
-        }
-        v
-    };
-    // sign the small RRset menu with a key pair, judge every RRSIG under `pubk`
-    let sign_menu = |kp: KeyPair, pubk: &KeyMat, form: &str, l: &mut Local| {
-        let skey = SigningKey::new(lname(&labels(SIGNER_NAMES[0])), pubk.flags, kp);
-        for &(ti, oi) in &small {
+/// Sign the small RRset menu (A, MX, TXT at z and *.a.z) with a key pair and
+/// judge every RRSIG under the public key `pubk` (fields, ring over the
+/// independent octets, signed_data / verify_signed_data through the reduced
+/// transformation menu). Returns the number of RRSIGs that passed.
+fn sign_small_menu(env: &Env, part: &str, kp: KeyPair, pubk: &KeyMat, form: &str, l: &mut Local) -> usize {
+    let mut passed = 0;
+    let skey = SigningKey::new(lname(&labels(SIGNER_NAMES[0])), pubk.flags, kp);
+    for mn in ["A", "MX", "TXT"] {
+        let ti = env.types.iter().position(|t| t.mn == mn).unwrap();
+        for oi in [0usize, 3] {
             l.evals += 1;
             let c = Case { ti, seq: vec![2, 0], oi, oc: 0, ttl: 3600, tm: 0, si: 0, class: 1, ki: 0, entry: 1, mixed: false };
             let rrs = c.rrs(env);
-            let cj = json!({"part": "keyform", "form": form, "alg": pubk.alg, "type": env.types[ti].mn, "owner": OWNERS[oi]});
+            let cj = json!({"part": part, "form": form, "alg": pubk.alg, "type": env.types[ti].mn, "owner": OWNERS[oi]});
             let (inc, exp, _) = env.times[0];
             let res = guard(|| {
                 let z = lib_zrecs(&build_msg(&rrs, false).bytes)?;
@@ -2964,14 +2962,27 @@ fn key_form_checks(env: &Env, form_keys: &[KeyMat], all_keys: &[KeyMat], l: &mut
                     let en = format!("sign_rrset|key-form#{form}");
                     let x = Expect { en: &en, spec: &env.types[ti], key: pubk, si: 0, inc, exp, ttl: 3600, class: 1, hash: fnv(format!("{cj}").as_bytes()), seen: None };
                     if let Some(s) = judge_rrsig(env, &x, rrs, &rec, &cj, l) {
-                        l.c(&format!("keyform:{form}:signature-verifies"));
+                        l.c(&format!("{part}:{form}:signature-verifies"));
                         check_transforms(env, &env.types[ti], pubk, &cj, &s, 1, l);
+                        passed += 1;
                     }
                 }
-                other => viol(format!("C12|key-form|{form}|sign-failed"), format!("alg {}: signing with the {form} key failed: {other:?}", pubk.alg), cj),
+                other => {
+                    env.ctx.violation(&format!("C12|key-form|{form}|sign-failed"), &format!("alg {}: signing with the {form} key failed: {other:?}", pubk.alg), cj);
+                }
             }
         }
+    }
+    passed
+}
+
+fn key_form_checks(env: &Env, form_keys: &[KeyMat], all_keys: &[KeyMat], l: &mut Local) {
+    use domain::crypto::common::PublicKey as LibPublicKey;
+    use domain::crypto::sign::{generate, GenerateParams, SignRaw};
+    let viol = |sig: String, what: String, rp: Value| {
+        env.ctx.violation(&sig, &what, rp);
     };
+    let sign_menu = |kp: KeyPair, pubk: &KeyMat, form: &str, l: &mut Local| sign_small_menu(env, "keyform", kp, pubk, form, l);
     for k in form_keys {
         let rp = |what: &str| json!({"part": "keyform", "alg": k.alg, "what": what});
         let pubrec = domain::dnssec::common::parse_from_bind::<Vec<u8>>(&k.key_text).expect("public key parses");
@@ -3066,7 +3077,7 @@ fn key_form_checks(env: &Env, form_keys: &[KeyMat], all_keys: &[KeyMat], l: &mut
                         let bad = pk.verify(&m2, &by_ref).map_err(|e| format!("{e:?}"));
                         Ok::<_, String>((ok, bad))
                     });
-                    let good = a == k.alg && by_ref == boxed && by_ref.len() == sig_len(k.alg) && ring_verify(k.alg, &k.pubkey, m, &by_ref);
+                    let good = a == k.alg && by_ref == boxed && by_ref.len() == sig_len(k.alg, &k.pubkey) && ring_verify(k.alg, &k.pubkey, m, &by_ref);
                     if !good {
                         viol("C12|sign_raw|signature-does-not-verify-with-ring".into(), format!("alg {}: sign_raw over {} octets: algorithm {a}, {} octets", k.alg, m.len(), by_ref.len()), rp("sign_raw"));
                     }
@@ -3234,6 +3245,556 @@ fn key_form_checks(env: &Env, form_keys: &[KeyMat], all_keys: &[KeyMat], l: &mut
 }
 
 // ===================================================================
+// P9: key sizes and public-key encodings
+// ===================================================================
+
+/// An RSA key made ONCE with the openssl command line tool (mc/keys/gen.py,
+/// never run by the check) and committed: BIND private-key text, DNSKEY
+/// line with the RFC 3110 public key field, and PKCS#1 v1.5 signatures made
+/// by openssl over mc/keys/msg.bin with SHA-1 / SHA-256 / SHA-512.
+struct RsaFixture {
+    name: &'static str,
+    bits: usize,
+    e: u64,
+    key: &'static str,
+    private: &'static str,
+    sigs: &'static str,
+}
+
+macro_rules! rsa_fixture {
+    ($bits:literal, $e:literal) => {
+        RsaFixture {
+            name: concat!("rsa-", $bits, "-e", $e),
+            bits: $bits,
+            e: $e,
+            key: include_str!(concat!("../../keys/rsa-", $bits, "-e", $e, ".key")),
+            private: include_str!(concat!("../../keys/rsa-", $bits, "-e", $e, ".private")),
+            sigs: include_str!(concat!("../../keys/rsa-", $bits, "-e", $e, ".sigs")),
+        }
+    };
+}
+
+const FIXTURE_MSG: &[u8] = include_bytes!("../../keys/msg.bin");
+
+fn rsa_fixtures() -> Vec<RsaFixture> {
+    vec![
+        rsa_fixture!(1024, 65537),
+        rsa_fixture!(2048, 65537),
+        rsa_fixture!(3072, 65537),
+        rsa_fixture!(4096, 65537),
+        rsa_fixture!(2048, 3),
+        rsa_fixture!(2048, 16777217),
+        rsa_fixture!(2056, 65537),
+        rsa_fixture!(4088, 65537),
+    ]
+}
+
+fn alg_mnemonic(alg: u8) -> &'static str {
+    match alg {
+        5 => "RSASHA1",
+        7 => "NSEC3RSASHA1",
+        8 => "RSASHA256",
+        10 => "RSASHA512",
+        _ => "?",
+    }
+}
+
+impl RsaFixture {
+    fn pubkey(&self) -> Vec<u8> {
+        let tok: Vec<&str> = self.key.split_whitespace().collect();
+        let di = tok.iter().position(|t| *t == "DNSKEY").expect("DNSKEY token");
+        b64(&tok[di + 4..].concat())
+    }
+    /// The openssl signature over FIXTURE_MSG with the hash of a DNSSEC algorithm.
+    fn sig(&self, alg: u8) -> Vec<u8> {
+        let h = match alg {
+            5 | 7 => "sha1",
+            8 => "sha256",
+            _ => "sha512",
+        };
+        let line = self.sigs.lines().find(|l| l.split_whitespace().next() == Some(h)).expect("signature line");
+        unhex(line.split_whitespace().nth(1).unwrap())
+    }
+    /// The fixture as a key of one of the four RSA DNSSEC algorithms (the key
+    /// material of RFC 3110 / RFC 5702 keys is the same; only the algorithm
+    /// number and the hash differ).
+    fn keymat(&self, alg: u8) -> KeyMat {
+        let pubkey = self.pubkey();
+        let flags = 256u16;
+        let mut rdata = flags.to_be_bytes().to_vec();
+        rdata.extend_from_slice(&[3, alg]);
+        rdata.extend_from_slice(&pubkey);
+        let tok: Vec<&str> = self.key.split_whitespace().collect();
+        let di = tok.iter().position(|t| *t == "DNSKEY").unwrap();
+        let key_text = format!("z. IN DNSKEY {flags} 3 {alg} {}\n", tok[di + 4..].concat());
+        let priv_text = self.private.replace("Algorithm: 8 (RSASHA256)", &format!("Algorithm: {alg} ({})", alg_mnemonic(alg)));
+        assert!(priv_text.contains(&format!("Algorithm: {alg} (")), "harness: fixture algorithm line");
+        KeyMat {
+            alg,
+            tag_file: keytag_app_b(&rdata),
+            owner_file: labels("z"),
+            flags,
+            dnskey: Dnskey::new(flags, 3, SecurityAlgorithm::from_int(alg), Bytes::from(pubkey.clone())).unwrap(),
+            pubkey,
+            rdata,
+            signers: vec![],
+            ds_text: None,
+            key_text,
+            priv_text,
+        }
+    }
+}
+
+/// Deterministic octet string of a length with a chosen first octet and an
+/// odd last octet (an RSA modulus and a usable public exponent are odd).
+fn synth_int(len: usize, lead: u8, salt: u8) -> Vec<u8> {
+    let mut v: Vec<u8> = (0..len).map(|i| (i as u8).wrapping_mul(37).wrapping_add(salt)).collect();
+    if len > 0 {
+        v[len - 1] |= 1;
+        v[0] = lead;
+    }
+    if len == 1 && lead != 0 {
+        v[0] = lead | 1;
+    }
+    v
+}
+
+/// RFC 3110 §2 encoding written out. `long_form` forces the three-octet
+/// length form.
+fn rfc3110_encode(e: &[u8], n: &[u8], long_form: bool) -> Vec<u8> {
+    let mut v = Vec::new();
+    if e.len() <= 255 && !long_form {
+        v.push(e.len() as u8);
+    } else {
+        v.push(0);
+        v.extend_from_slice(&(e.len() as u16).to_be_bytes());
+    }
+    v.extend_from_slice(e);
+    v.extend_from_slice(n);
+    v
+}
+
+fn modulus_class(nlen: usize) -> &'static str {
+    match nlen {
+        0 => "modulus=absent",
+        1..=127 => "modulus<1024-bit",
+        128 => "modulus=1024-bit(backend-minimum)",
+        129..=511 => "modulus=in-range",
+        512 => "modulus=4096-bit(RFC3110-maximum)",
+        _ => "modulus>4096-bit",
+    }
+}
+fn exponent_class(elen: usize, long_form: bool) -> String {
+    let l = match elen {
+        0 => "absent",
+        1..=4 => "1..4-octets",
+        5..=255 => "5..255-octets",
+        256..=511 => "256..511-octets",
+        512 => "512-octets(RFC3110-maximum)",
+        _ => ">512-octets",
+    };
+    format!("exponent={l},{}-length-form", if long_form { "3-octet" } else { "1-octet" })
+}
+
+/// KeyPair::from_bytes with an ECDSA secret key and a DNSKEY that carries
+/// another algorithm number (but octets from which the curve point can still
+/// be read) is accepted by the library as of this writing; reported to the
+/// maintainer of the checks as a candidate finding, not judged here.
+const JUDGE_RELABELLED_DNSKEY: bool = false;
+
+fn key_size_checks(env: &Env, form_keys: &[KeyMat], all_keys: &[KeyMat], l: &mut Local) {
+    use domain::crypto::common::{rsa_encode, rsa_exponent_modulus, PublicKey as LibPublicKey};
+    use domain::crypto::sign::SignRaw;
+    let quick = env.quick;
+    let viol = |sig: String, what: String, rp: Value| {
+        env.ctx.violation(&sig, &what, rp);
+    };
+    // library verdict on (key, message, signature): Ok(true) verified,
+    // Ok(false) refused at from_dnskey or at verify, Err = panic
+    let lib_verifies = |dk: &Dnskey<Bytes>, m: &[u8], s: &[u8]| -> Result<bool, String> {
+        guard(|| match LibPublicKey::from_dnskey(dk) {
+            Ok(pk) => pk.verify(m, s).is_ok(),
+            Err(_) => false,
+        })
+    };
+    // ------------------------------------------------------------------
+    // (a) real RSA keys of every size / exponent length
+    // ------------------------------------------------------------------
+    let fixtures = rsa_fixtures();
+    let mut fixture_keys: Vec<KeyMat> = Vec::new();
+    for f in &fixtures {
+        let pubkey = f.pubkey();
+        let (e, n) = rsa_split(&pubkey).expect("harness: fixture public key splits");
+        let fields = bind_fields(f.private);
+        assert!(fields["Modulus"] == n && fields["PublicExponent"] == e, "harness: fixture {} .key and .private disagree", f.name);
+        assert!(n.len() == (f.bits + 7) / 8 && ref_key_size(8, &pubkey) == Some(f.bits), "harness: fixture {} size", f.name);
+        assert!(e.iter().fold(0u64, |a, b| (a << 8) | *b as u64) == f.e && e[0] != 0, "harness: fixture {} exponent", f.name);
+        for alg in [5u8, 7, 8, 10] {
+            let k = f.keymat(alg);
+            let rp = |what: &str| json!({"part": "keysize", "fixture": f.name, "alg": alg, "what": what});
+            let size = format!("{},exponent={}-octets", modulus_class(n.len()), e.len());
+            let sig = f.sig(alg);
+            assert!(ring_verify(alg, &pubkey, FIXTURE_MSG, &sig), "harness: fixture {} signature for alg {alg} does not verify with ring", f.name);
+            // ---- the independent signer's signature under the library's key
+            l.evals += 1;
+            match guard(|| LibPublicKey::from_dnskey(&k.dnskey).map_err(|e| format!("{e:?}"))) {
+                Err(p) => viol(format!("C12|key-size|rsa|from_dnskey|panic|{}", panic_class(&p)), format!("{} alg {alg}: {p}", f.name), rp("from_dnskey")),
+                Ok(Err(err)) => viol(
+                    format!("C12|key-size|rsa|from_dnskey|{size}|legal-key-refused"),
+                    format!("{} as an alg {alg} DNSKEY ({} bit modulus, {} octet exponent): PublicKey::from_dnskey = Err({err}); RFC 3110 allows up to 4096 bits and the backend verifies from 1024 bits up", f.name, f.bits, e.len()),
+                    rp("from_dnskey"),
+                ),
+                Ok(Ok(pk)) => {
+                    env.stats.distinct(fnv(format!("keysize|{}|{alg}|verify", f.name).as_bytes()));
+                    let other = f.sig(if alg == 8 { 10 } else { 8 });
+                    let mut m2 = FIXTURE_MSG.to_vec();
+                    m2.push(0);
+                    let r = guard(|| (pk.verify(FIXTURE_MSG, &sig).is_ok(), pk.verify(FIXTURE_MSG, &other).is_ok(), pk.verify(&m2, &sig).is_ok(), pk.verify(FIXTURE_MSG, &sig[..sig.len() - 1]).is_ok()));
+                    match r {
+                        Ok((true, false, false, false)) => l.c("keysize:rsa:independent-signature-verifies,altered-rejected"),
+                        Ok((false, ..)) => viol(
+                            format!("C12|key-size|rsa|verify|{size}|valid-signature-of-independent-signer-rejected"),
+                            format!("{} alg {alg}: PublicKey::verify rejects the PKCS#1 v1.5 signature made by openssl over the fixture message (ring, called directly, accepts it)", f.name),
+                            rp("verify"),
+                        ),
+                        other_r => viol(
+                            format!("C12|key-size|rsa|verify|{size}|altered-input-accepted"),
+                            format!("{} alg {alg}: (good, other-hash signature, other message, truncated signature) verified = {other_r:?}", f.name),
+                            rp("verify"),
+                        ),
+                    }
+                }
+            }
+            // ---- size, tag, field split and re-encoding
+            l.evals += 1;
+            let got = guard(|| (k.dnskey.key_size().map_err(|e| format!("{e:?}")), k.dnskey.key_tag()));
+            if got != Ok((Ok(f.bits), keytag_app_b(&k.rdata))) {
+                viol(format!("C12|key-size|rsa|key_size-or-key_tag|{size}|differs"), format!("{} alg {alg}: (key_size, key_tag) = {got:?}, by hand ({}, {})", f.name, f.bits, keytag_app_b(&k.rdata)), rp("key_size"));
+            } else {
+                l.c("keysize:rsa:key_size,key_tag-agree");
+            }
+            for min in [0usize, 128, n.len(), n.len() + 1] {
+                l.evals += 1;
+                let got = guard(|| rsa_exponent_modulus(&k.dnskey, min).ok());
+                let want = if n.len() >= min { Some((e.to_vec(), n.to_vec())) } else { None };
+                if got.as_ref() != Ok(&want) {
+                    viol(
+                        format!("C12|key-size|rsa|rsa_exponent_modulus|{size}|min_len{}modulus|expected={}", if n.len() >= min { "<=" } else { ">" }, if want.is_some() { "split" } else { "refusal" }),
+                        format!("{} alg {alg}: rsa_exponent_modulus(min_len {min}) = {:?}", f.name, got.map(|o| o.map(|(e, n)| (e.len(), n.len())))),
+                        rp("rsa_exponent_modulus"),
+                    );
+                }
+            }
+            l.evals += 1;
+            if guard(|| rsa_encode(e, n)) != Ok(pubkey.clone()) {
+                viol(format!("C12|key-size|rsa|rsa_encode|{size}|differs-from-RFC3110"), format!("{} alg {alg}: rsa_encode(e, n) is not the public key field of the key file", f.name), rp("rsa_encode"));
+            }
+            // ---- a public key field one octet shorter / longer is another key
+            for (vn, pk2) in [("modulus-minus-last-octet", pubkey[..pubkey.len() - 1].to_vec()), ("modulus-plus-one-octet", [&pubkey[..], &[1u8][..]].concat())] {
+                l.evals += 1;
+                let dk = Dnskey::new(256, 3, SecurityAlgorithm::from_int(alg), Bytes::from(pk2)).unwrap();
+                match lib_verifies(&dk, FIXTURE_MSG, &sig) {
+                    Ok(false) => l.c("keysize:rsa:resized-public-key-does-not-verify"),
+                    other => viol(format!("C12|key-size|rsa|verify|{vn}|verifies-or-panics"), format!("{} alg {alg}: {other:?}", f.name), rp(vn)),
+                }
+            }
+            // ---- the private side: text form, import, signing
+            if matches!(alg, 8 | 10) {
+                l.evals += 1;
+                let parsed = guard(|| -> Result<(SecretKeyBytes, String), String> {
+                    let s = SecretKeyBytes::parse_from_bind(&k.priv_text).map_err(|e| format!("parse: {e}"))?;
+                    let t = s.display_as_bind().to_string();
+                    Ok((s, t))
+                });
+                let secret = match parsed {
+                    Ok(Ok((s, t))) if bind_fields(&t) == bind_fields(&k.priv_text) && s.algorithm().to_int() == alg => {
+                        l.c("keysize:rsa:private-key-text-round-trip");
+                        s
+                    }
+                    other => {
+                        viol(format!("C12|key-size|rsa|private-key-text|{size}|not-read-or-changed"), format!("{} alg {alg}: {:?}", f.name, other.map(|r| r.map(|x| x.1))), rp("text"));
+                        continue;
+                    }
+                };
+                // the sizes every RSA signer handles (RFC 5702 2 / the ring
+                // backend's documented "2048-bit keys or larger", F4 exponent)
+                let standard = f.e == 65537 && matches!(f.bits, 2048 | 3072 | 4096);
+                match guard(|| KeyPair::from_bytes(&secret, &k.dnskey).map_err(|e| format!("{e}"))) {
+                    Err(p) => viol(format!("C12|key-size|rsa|from_bytes|panic|{}", panic_class(&p)), format!("{} alg {alg}: {p}", f.name), rp("from_bytes")),
+                    Ok(Err(e)) if standard => viol(format!("C12|key-size|rsa|from_bytes|{size}|standard-size-key-refused"), format!("{} alg {alg}: KeyPair::from_bytes = Err({e})", f.name), rp("from_bytes")),
+                    Ok(Err(_)) => l.c(&format!("keysize:rsa:{}:not-importable-for-signing(accepted: size/exponent outside what the backend signs with)", f.name)),
+                    Ok(Ok(kp)) => {
+                        let d = kp.dnskey();
+                        if kp.algorithm().to_int() != alg || d.public_key() != &pubkey || d.algorithm().to_int() != alg || d.flags() != 256 || d.protocol() != 3 {
+                            viol(format!("C12|key-size|rsa|from_bytes|{size}|dnskey-differs-from-key-file"), format!("{} alg {alg}: KeyPair::dnskey()", f.name), rp("from_bytes"));
+                        }
+                        for m in [&b""[..], FIXTURE_MSG] {
+                            l.evals += 1;
+                            let r = guard(|| kp.sign_raw(m).map(|s| s.as_ref().to_vec()).map_err(|e| format!("{e}")));
+                            match r {
+                                Ok(Ok(s)) if s.len() == n.len() && ring_verify(alg, &pubkey, m, &s) => {
+                                    // PKCS#1 v1.5 is deterministic: the two signers agree
+                                    if m == FIXTURE_MSG && s != sig {
+                                        viol(format!("C12|key-size|rsa|sign_raw|{size}|differs-from-independent-signer"), format!("{} alg {alg}: sign_raw and openssl disagree on a deterministic signature", f.name), rp("sign_raw"));
+                                    }
+                                    match lib_verifies(&k.dnskey, m, &s) {
+                                        Ok(true) => l.c("keysize:rsa:sign_raw-verifies(ring,library)"),
+                                        other => viol(
+                                            format!("C12|key-size|rsa|verify|{size}|own-signature-rejected"),
+                                            format!("{} alg {alg}: sign_raw output verifies with ring directly but PublicKey::from_dnskey + verify says {other:?}", f.name),
+                                            rp("sign_raw"),
+                                        ),
+                                    }
+                                }
+                                other => viol(format!("C12|key-size|rsa|sign_raw|{size}|no-valid-signature"), format!("{} alg {alg}: {:?}", f.name, other.map(|r| r.map(|s| s.len()))), rp("sign_raw")),
+                            }
+                        }
+                        env.stats.distinct(fnv(format!("keysize|{}|{alg}|sign", f.name).as_bytes()));
+                        sign_small_menu(env, "keysize", kp, &k, &format!("fixture:{}", f.name), l);
+                    }
+                }
+                // a secret key pairs with its own public key only
+                for g in &fixtures {
+                    if g.name == f.name {
+                        continue;
+                    }
+                    l.evals += 1;
+                    let other = g.keymat(alg);
+                    match guard(|| KeyPair::from_bytes(&secret, &other.dnskey).is_ok()) {
+                        Ok(false) => l.c("keysize:rsa:foreign-public-key-refused"),
+                        r => viol("C12|key-size|rsa|from_bytes|foreign-public-key".into(), format!("secret {} with public {}: accepted = {r:?}", f.name, g.name), rp("from_bytes")),
+                    }
+                }
+            }
+            fixture_keys.push(k);
+        }
+    }
+    ds_checks(env, "keysize", &fixture_keys, l);
+    // ------------------------------------------------------------------
+    // (b) the RFC 3110 public key field: exponent length x modulus length x
+    //     leading octets x length form, without private keys
+    // ------------------------------------------------------------------
+    let mut elens: Vec<usize> = vec![1, 3, 4, 255, 256, 512, 513];
+    let mut nlens: Vec<usize> = vec![0, 1, 63, 64, 127, 128, 129, 255, 256, 257, 384, 511, 512, 513, 1024];
+    if !quick {
+        elens.extend([2, 5, 8, 128, 254, 257, 511, 514, 1024]);
+        nlens.extend([2, 65, 126, 130, 254, 383, 385, 510, 514, 640, 2048]);
+    }
+    // (name, first octet of the exponent, first octet of the modulus)
+    let leads: [(&str, u8, u8); 5] = [("both-full", 0x01, 0x80), ("modulus-low-top-octet", 0x01, 0x01), ("exponent-high-top-octet", 0xFF, 0xFF), ("exponent-leading-zero", 0x00, 0x80), ("modulus-leading-zero", 0x01, 0x00)];
+    for &elen in &elens {
+        for &nlen in &nlens {
+            for (ln, e0, n0) in leads {
+                for long_form in [false, true] {
+                    if !long_form && elen > 255 {
+                        continue;
+                    }
+                    // the three-octet form for a length that fits one octet
+                    // is not the RFC 3110 encoding; accepting it is harmless
+                    let canonical = long_form == (elen > 255);
+                    // a one-octet exponent is 3 (1 is no RSA exponent), not 1
+                    let e = synth_int(elen, if elen == 1 && e0 == 1 { 3 } else { e0 }, 3);
+                    let n = synth_int(nlen, n0, 11);
+                    let bits = if nlen > 0 { nlen * 8 - n[0].leading_zeros() as usize } else { 0 };
+                    let pubkey = rfc3110_encode(&e, &n, long_form);
+                    let zero_lead = e[0] == 0 || n.first() == Some(&0);
+                    // RFC 3110 2: each limited to 4096 bits, leading zero octets prohibited
+                    let legal = (1..=512).contains(&elen) && (1..=512).contains(&nlen) && !zero_lead;
+                    let cause = format!("{},{}{}", exponent_class(elen, long_form), modulus_class(nlen), if zero_lead { ",leading-zero-octet" } else { "" });
+                    let rp = json!({"part": "keysize", "what": "rsa-public-key-field", "exponent_octets": elen, "modulus_octets": nlen, "leading_octets": ln, "three_octet_length_form": long_form, "public_key": hex(&pubkey[..pubkey.len().min(24)])});
+                    let dk8 = Dnskey::new(256, 3, SecurityAlgorithm::RSASHA256, Bytes::from(pubkey.clone())).unwrap();
+                    env.stats.distinct(fnv(format!("keysize|field|{elen}|{nlen}|{ln}|{long_form}").as_bytes()));
+                    // ---- the field splitter
+                    for min in [0usize, 128, 256, 513] {
+                        l.evals += 1;
+                        let got = guard(|| rsa_exponent_modulus(&dk8, min).ok());
+                        let split = Some((e.clone(), n.clone()));
+                        let ok = match &got {
+                            Err(_) => false,
+                            Ok(g) if !legal => g.is_none(),
+                            Ok(g) if nlen < min => g.is_none(),
+                            Ok(g) if canonical => *g == split,
+                            Ok(g) => g.is_none() || *g == split,
+                        };
+                        if ok {
+                            l.c(if matches!(got, Ok(Some(_))) { "keysize:field:split-agrees" } else { "keysize:field:refused-as-expected" });
+                        } else {
+                            let want = if !legal {
+                                "refusal(RFC3110-limit-or-leading-zero)"
+                            } else if nlen < min {
+                                "refusal(below-min_len)"
+                            } else {
+                                "split"
+                            };
+                            viol(
+                                format!("C12|key-size|rsa|rsa_exponent_modulus|{cause}|expected={want}"),
+                                format!("rsa_exponent_modulus(min_len {min}) over a public key field with a {elen}-octet exponent and a {nlen}-octet modulus ({ln}) = {:?}", got.map(|o| o.map(|(e, n)| (hex(&e[..e.len().min(4)]), e.len(), n.len())))),
+                                rp.clone(),
+                            );
+                        }
+                    }
+                    // ---- the verifier's key import, under all four RSA algorithms
+                    for alg in [5u8, 7, 8, 10] {
+                        l.evals += 1;
+                        let dk = Dnskey::new(256, 3, SecurityAlgorithm::from_int(alg), Bytes::from(pubkey.clone())).unwrap();
+                        let r = guard(|| match LibPublicKey::from_dnskey(&dk) {
+                            Ok(pk) => Some(pk.verify(FIXTURE_MSG, &vec![0x5A; nlen.max(1)]).is_ok()),
+                            Err(_) => None,
+                        });
+                        match r {
+                            Err(p) => viol(format!("C12|key-size|rsa|from_dnskey|panic|{}", panic_class(&p)), format!("alg {alg}, {cause}: {p}"), rp.clone()),
+                            Ok(Some(true)) => viol(format!("C12|key-size|rsa|verify|{cause}|garbage-signature-verifies"), format!("alg {alg}"), rp.clone()),
+                            Ok(Some(false)) if !legal => viol(
+                                format!("C12|key-size|rsa|from_dnskey|{cause}|illegal-key-accepted"),
+                                format!("alg {alg}: PublicKey::from_dnskey accepts a public key field RFC 3110 prohibits ({elen}-octet exponent, {nlen}-octet modulus, {ln})"),
+                                rp.clone(),
+                            ),
+                            Ok(None) if legal && canonical && bits >= 1024 && elen <= 4 => viol(
+                                format!("C12|key-size|rsa|from_dnskey|{cause}|legal-key-refused"),
+                                format!("alg {alg}: PublicKey::from_dnskey refuses a legal key ({elen}-octet exponent, {nlen}-octet modulus, {ln})"),
+                                rp.clone(),
+                            ),
+                            Ok(Some(false)) => l.c("keysize:field:from_dnskey-accepts(garbage signature rejected)"),
+                            Ok(None) if !legal => l.c("keysize:field:from_dnskey-refuses-illegal"),
+                            Ok(None) => l.c("keysize:field:from_dnskey-refuses(not judged: below 1024 bit, exponent above 4 octets or long form)"),
+                        }
+                    }
+                    if legal {
+                        // ---- size of a legal key; the encoder and its round trip
+                        l.evals += 1;
+                        let want_bits = bits;
+                        let got = guard(|| dk8.key_size().ok());
+                        if canonical && got != Ok(Some(want_bits)) {
+                            viol(format!("C12|key-size|rsa|key_size|{cause}|differs"), format!("key_size() = {got:?}, by hand {want_bits}"), rp.clone());
+                        }
+                        if canonical {
+                            let padded_e = [&[0u8, 0][..], &e[..]].concat();
+                            let padded_n = [&[0u8][..], &n[..]].concat();
+                            let got = guard(|| (rsa_encode(&e, &n), rsa_encode(&padded_e, &padded_n)));
+                            if got != Ok((pubkey.clone(), pubkey.clone())) {
+                                viol(
+                                    format!("C12|key-size|rsa|rsa_encode|{cause}|differs-from-RFC3110"),
+                                    format!("rsa_encode of a {elen}-octet exponent and a {nlen}-octet modulus (plain / with leading zero octets to strip) is not the RFC 3110 field: lengths {:?}, expected {}", got.map(|(a, b)| (a.len(), b.len())), pubkey.len()),
+                                    rp.clone(),
+                                );
+                            } else {
+                                l.c("keysize:field:rsa_encode-agrees");
+                            }
+                        }
+                    }
+                }
+            }
+        }
+    }
+    // fields that end before the exponent does, and degenerate fields
+    let mut short: Vec<(&str, Vec<u8>)> = vec![
+        ("empty", vec![]),
+        ("length-octet-only", vec![3]),
+        ("zero-only", vec![0]),
+        ("long-form-cut-in-length", vec![0, 1]),
+        ("long-form-length-only", vec![0, 1, 0]),
+        ("long-form-zero-length", [&[0u8, 0, 0][..], &synth_int(256, 0x80, 1)[..]].concat()),
+        ("one-octet-form-zero-length-by-long-form", [&[0u8, 0, 0][..], &synth_int(128, 0x80, 1)[..]].concat()),
+        ("exponent-cut", vec![3, 1, 0]),
+        ("exponent-exactly-fills-field", vec![3, 1, 0, 1]),
+        ("long-exponent-cut", [&[0u8, 1, 0][..], &synth_int(255, 0x01, 3)[..]].concat()),
+        ("exponent-255-cut", [&[255u8][..], &synth_int(254, 0x01, 3)[..]].concat()),
+    ];
+    short.push(("long-exponent-exactly-fills-field", [&[0u8, 1, 0][..], &synth_int(256, 0x01, 3)[..]].concat()));
+    for (vn, pubkey) in &short {
+        for alg in [5u8, 7, 8, 10] {
+            l.evals += 1;
+            let dk = Dnskey::new(256, 3, SecurityAlgorithm::from_int(alg), Bytes::from(pubkey.clone())).unwrap();
+            let r = guard(|| (rsa_exponent_modulus(&dk, 0).is_ok(), LibPublicKey::from_dnskey(&dk).is_ok()));
+            env.stats.distinct(fnv(format!("keysize|short|{vn}|{alg}").as_bytes()));
+            match r {
+                Ok((false, false)) => l.c("keysize:field:incomplete-field-refused"),
+                Ok(other) => viol(format!("C12|key-size|rsa|public-key-field|incomplete({vn})|accepted"), format!("alg {alg}: (rsa_exponent_modulus ok, from_dnskey ok) = {other:?}"), json!({"part": "keysize", "what": vn, "alg": alg})),
+                Err(p) => viol(format!("C12|key-size|rsa|public-key-field|panic|{}", panic_class(&p)), format!("alg {alg}, {vn}: {p}"), json!({"part": "keysize", "what": vn, "alg": alg})),
+            }
+        }
+    }
+    // ------------------------------------------------------------------
+    // (c) fixed-length public keys (ECDSA, EdDSA): exact length only
+    // ------------------------------------------------------------------
+    let ec: Vec<&KeyMat> = form_keys.iter().filter(|k| matches!(k.alg, 13 | 14 | 15)).collect();
+    for k in &ec {
+        let msg: &[u8] = b"C12 public key length probe";
+        let made = guard(|| -> Result<(SecretKeyBytes, Vec<u8>), String> {
+            let s = SecretKeyBytes::parse_from_bind(&k.priv_text).map_err(|e| format!("{e}"))?;
+            let kp = KeyPair::from_bytes(&s, &k.dnskey).map_err(|e| format!("{e}"))?;
+            let sig = kp.sign_raw(msg).map_err(|e| format!("{e}"))?.as_ref().to_vec();
+            Ok((s, sig))
+        });
+        let (secret, sig) = match made {
+            Ok(Ok(x)) if ring_verify(k.alg, &k.pubkey, msg, &x.1) => x,
+            other => {
+                viol("C12|key-size|fixed-length|sign_raw|no-valid-signature".into(), format!("alg {}: {:?}", k.alg, other.map(|r| r.map(|x| x.1.len()))), json!({"part": "keysize", "alg": k.alg}));
+                continue;
+            }
+        };
+        let want_len = match k.alg {
+            13 => 64, // RFC 6605 4
+            14 => 96,
+            _ => 32, // RFC 8080 3
+        };
+        assert_eq!(k.pubkey.len(), want_len, "harness: key file length");
+        let p = &k.pubkey;
+        let variants: Vec<(&str, Vec<u8>)> = vec![
+            ("exact", p.clone()),
+            ("minus-last-octet", p[..p.len() - 1].to_vec()),
+            ("minus-first-octet", p[1..].to_vec()),
+            ("plus-zero-octet", [&p[..], &[0u8][..]].concat()),
+            ("plus-one-octet-in-front", [&[0u8][..], &p[..]].concat()),
+            ("sec1-uncompressed-prefix", [&[4u8][..], &p[..]].concat()),
+            ("first-half", p[..p.len() / 2].to_vec()),
+            ("doubled", [&p[..], &p[..]].concat()),
+            ("empty", vec![]),
+        ];
+        for (vn, pk2) in &variants {
+            for alg in [13u8, 14, 15, 16] {
+                l.evals += 1;
+                let exact = *vn == "exact" && alg == k.alg;
+                let dk = Dnskey::new(k.flags, 3, SecurityAlgorithm::from_int(alg), Bytes::from(pk2.clone())).unwrap();
+                let rp = json!({"part": "keysize", "what": "fixed-length-public-key", "key_alg": k.alg, "as_alg": alg, "variant": vn});
+                env.stats.distinct(fnv(format!("keysize|ec|{}|{alg}|{vn}", k.alg).as_bytes()));
+                let cause = format!("key-of-alg-{}|{}|{}", k.alg, if alg == k.alg { "own-algorithm" } else { "other-algorithm-number" }, vn);
+                match lib_verifies(&dk, msg, &sig) {
+                    Ok(v) if v == exact => l.c(if v { "keysize:fixed-length:exact-key-verifies" } else { "keysize:fixed-length:resized-or-relabelled-key-does-not-verify" }),
+                    Ok(v) => viol(format!("C12|key-size|fixed-length|verify|{cause}|expected={exact}|got={v}"), format!("a {}-octet public key as alg {alg}: signature of the alg {} key verifies = {v}", pk2.len(), k.alg), rp.clone()),
+                    Err(pn) => viol(format!("C12|key-size|fixed-length|verify|panic|{}", panic_class(&pn)), format!("{cause}: {pn}"), rp.clone()),
+                }
+                match guard(|| KeyPair::from_bytes(&secret, &dk).is_ok()) {
+                    // a DNSKEY with another algorithm number than the secret
+                    // key: a refusal is what the RSA and Ed25519 branches do; the
+                    // ECDSA branch accepts such a DNSKEY when the octets still
+                    // contain the point (the pair then reports its own algorithm
+                    // and key). Counted by outcome unless JUDGE_RELABELLED_DNSKEY.
+                    Ok(v) if alg != k.alg && !JUDGE_RELABELLED_DNSKEY => l.c(&format!("keysize:fixed-length:dnskey-with-other-algorithm-number:from_bytes-ok={v}(not judged)")),
+                    Ok(v) if v == exact => l.c(if v { "keysize:fixed-length:own-key-imports" } else { "keysize:fixed-length:resized-public-key-refused-by-from_bytes" }),
+                    Ok(v) => viol(format!("C12|key-size|fixed-length|from_bytes|{cause}|expected={exact}|got={v}"), format!("KeyPair::from_bytes with a {}-octet public key as alg {alg} accepted = {v}", pk2.len()), rp.clone()),
+                    Err(pn) => viol(format!("C12|key-size|fixed-length|from_bytes|panic|{}", panic_class(&pn)), format!("{cause}: {pn}"), rp.clone()),
+                }
+            }
+        }
+        // a signature one octet short / long is not a signature
+        for (vn, s2) in [("minus-last-octet", sig[..sig.len() - 1].to_vec()), ("plus-zero-octet", [&sig[..], &[0u8][..]].concat()), ("empty", vec![])] {
+            l.evals += 1;
+            match lib_verifies(&k.dnskey, msg, &s2) {
+                Ok(false) => l.c("keysize:fixed-length:resized-signature-does-not-verify"),
+                other => viol(format!("C12|key-size|fixed-length|verify|signature-{vn}|verifies-or-panics"), format!("alg {}: {other:?}", k.alg), json!({"part": "keysize", "alg": k.alg, "what": vn})),
+            }
+        }
+    }
+    // what the backend says about the key it cannot use (Ed448): counted
+    for k in all_keys.iter().filter(|k| k.alg == 16) {
+        l.evals += 1;
+        let r = guard(|| LibPublicKey::from_dnskey(&k.dnskey).is_ok());
+        l.c(&format!("keysize:ed448:from_dnskey-ok={r:?}(not judged)"));
+    }
+}
+
+// ===================================================================
 // key tag and DS digest
 // ===================================================================
 
@@ -3312,7 +3873,7 @@ fn keytag_checks(env: &Env, all_keys: &[KeyMat], quick: bool, l: &mut Local) {
     }
 }
 
-fn ds_checks(env: &Env, all_keys: &[KeyMat], l: &mut Local) {
+fn ds_checks(env: &Env, part: &str, all_keys: &[KeyMat], l: &mut Local) {
     use ring::digest as rd;
     let owners = ["test", "TEST", "tEsT", "z", "a.Z", "*.Sub.Test", "."];
     for k in all_keys {
@@ -3326,7 +3887,7 @@ fn ds_checks(env: &Env, all_keys: &[KeyMat], l: &mut Local) {
             ] {
                 l.evals += 1;
                 let got = guard(|| k.dnskey.digest(&lname(&ol), da).map(|d| d.as_ref().to_vec()).map_err(|e| format!("{e:?}")));
-                let replay = json!({"part": "ds", "alg": k.alg, "owner": o, "digest_type": code});
+                let replay = json!({"part": part, "what": "ds", "alg": k.alg, "key_octets": k.pubkey.len(), "owner": o, "digest_type": code});
                 match (got, ra) {
                     (Err(p), _) => {
                         env.ctx.violation(&format!("C12|ds-digest|panic|{}", panic_class(&p)), &format!("digest() panicked: {p}"), replay);
@@ -3340,7 +3901,7 @@ fn ds_checks(env: &Env, all_keys: &[KeyMat], l: &mut Local) {
                         let mut input = name_wire(&lower_labels(&ol));
                         input.extend_from_slice(&k.rdata);
                         let want = rd::digest(ra, &input).as_ref().to_vec();
-                        env.stats.distinct(fnv(format!("ds|{}|{o}|{code}", k.alg).as_bytes()));
+                        env.stats.distinct(fnv(format!("ds|{}|{}|{o}|{code}", k.alg, k.tag_file).as_bytes()));
                         // the DS RDATA built from it (RFC 4034 5.1)
                         let tag = keytag_app_b(&k.rdata);
                         let mut hand = tag.to_be_bytes().to_vec();
@@ -3462,10 +4023,17 @@ fn main() {
         let (mut env, all_keys, form_keys) = build_env(ctx.clone(), tier_quick);
         env.verbose = true;
         let mut l = Local::default();
-        match if node["part"] == "keyform" { "keyform" } else { case["part"].as_str().unwrap_or("") } {
+        match if node["part"] == "keyform" {
+            "keyform"
+        } else if node["part"] == "keysize" {
+            "keysize"
+        } else {
+            case["part"].as_str().unwrap_or("")
+        } {
             "keyform" => key_form_checks(&env, &form_keys, &all_keys, &mut l),
             "keytag" => keytag_checks(&env, &all_keys, tier_quick, &mut l),
-            "ds" => ds_checks(&env, &all_keys, &mut l),
+            "ds" => ds_checks(&env, "ds", &all_keys, &mut l),
+            "keysize" => key_size_checks(&env, &form_keys, &all_keys, &mut l),
             part => {
                 let mut c = Case::from_json(&inner);
                 c.ti = env.types.iter().position(|t| Some(t.mn) == inner["type"].as_str()).expect("type in this tier's menu");
@@ -3730,8 +4298,11 @@ fn main() {
     key_form_checks(&env, &form_keys, &all_keys, &mut total);
     let e6 = total.evals;
     eprintln!("P6 done: {} evaluations, {:.1}s", e6, t0.elapsed().as_secs_f64());
+    key_size_checks(&env, &form_keys, &all_keys, &mut total);
+    let e9 = total.evals - e6;
+    eprintln!("P9 done: {} evaluations, {:.1}s", e9, t0.elapsed().as_secs_f64());
     keytag_checks(&env, &all_keys, quick, &mut total);
-    ds_checks(&env, &all_keys, &mut total);
+    ds_checks(&env, "ds", &all_keys, &mut total);
     let l1 = run_all(&env, &p1, sign_and_transform);
     eprintln!("P1 done: {} cases, {} evaluations, {:.1}s", p1.len(), l1.evals, t0.elapsed().as_secs_f64());
     let l2 = run_all(&env, &p2, sign_and_transform);
@@ -3779,6 +4350,8 @@ fn main() {
                 "P8_fault_histories": p8.len(), "P8_evaluations(calls + RRSIGs judged)": e8,
                 "P8_alphabet_A_symbols": alpha_a.len(), "P8_alphabet_B_symbols": alpha_b.len(),
                 "P8_blocks": p8_bound,
+                "P9_key_size_and_public_key_encoding_evaluations": e9,
+                "P9_rsa_fixture_keys": rsa_fixtures().iter().map(|f| f.name).collect::<Vec<_>>(),
             },
             "P8_calls_failed_by_injection(returned Err, no RRSIG)": sum("fh:failed-call-returned-Err:"),
             "P8_calls_refused_for_a_reversed_period(returned Err)": sum("fh:refused-call"),
@@ -3787,6 +4360,9 @@ fn main() {
             "P8_rrsigs_verified_after_a_failed_call": sum2("fh:verified:", "|after-failed-call"),
             "P8_rrsigs_verified_in_retries": sum2("fh:verified:", "|retry-of-failed-call"),
             "P8_rrsigs_verified_with_caller_dirtied_scratch": sum2("fh:verified:", "|caller-left-octets-in-scratch"),
+            "P9_rrsigs_of_fixture_keys_verified": sum2("keysize:fixture:", ":signature-verifies"),
+            "P9_independent_signatures_verified_by_library": sum("keysize:rsa:independent-signature-verifies"),
+            "P9_public_key_fields_split_checked": sum("keysize:field:split-agrees") + sum("keysize:field:refused-as-expected"),
             "signed": sum("signer:signed:"),
             "verified_after_legit_transform": sum("verify:ok-after-legit-transform"),
             "faults_same_octets_must_verify": sum(":same-octets,verifies"),
@@ -3797,7 +4373,8 @@ fn main() {
             "samples": env.stats.samples(),
         }),
         &[
-            "keys: only the fixed key files of /repo/test-data/dnssec-keys (one key per algorithm); signing algorithms limited to what the ring backend imports (8, 10, 13, 14, 15)",
+            "keys: the fixed key files of /repo/test-data/dnssec-keys (one key per algorithm) in P1-P8; P9 adds committed RSA fixtures (mc/keys, made once with the openssl command line tool, embedded at compile time, never generated by the check); signing algorithms limited to what the ring backend imports (8, 10, 13, 14, 15)",
+            "P9 (both tiers): (a) RSA fixtures 1024/2048/3072/4096/2056/4088 bit with e=65537 and 2048 bit with e=3 and e=16777217 (exponent lengths 1, 3, 4 octets; modulus lengths 128, 256, 257, 384, 511, 512 octets), each as algorithm 5, 7, 8, 10: PublicKey::from_dnskey must accept and verify the PKCS#1 v1.5 signature openssl made over a fixed message (and reject the other-hash signature, another message, a truncated signature, and the key with the modulus one octet shorter/longer); key_size, key_tag (App. B), DS digests, rsa_exponent_modulus (min_len around the modulus length) and rsa_encode agree with the hand split of the key file; as algorithm 8 and 10 the BIND private text round-trips, KeyPair::from_bytes must import the 2048/3072/4096-bit F4 keys (a refusal of the other sizes/exponents is accepted), sign_raw equals the openssl signature and every imported key signs the A/MX/TXT x {z, *.a.z} RRsets, each RRSIG judged like everywhere else (fields, ring over the independent octets, signed_data, verify_signed_data through the reduced transformation menu); a secret key with any other fixture's public key must be refused; (b) synthetic RFC 3110 public key fields: exponent lengths {1,3,4,255,256,512,513} x modulus lengths {0,1,63,64,127,128,129,255,256,257,384,511,512,513,1024} (thorough: more) x five leading-octet patterns x one-octet / three-octet length form, plus 12 cut-off fields: rsa_exponent_modulus with min_len {0,128,256,513} must return exactly the hand split for a legal field (1..512 octets each, no leading zero octet) with a long enough modulus and refuse otherwise; PublicKey::from_dnskey (algorithms 5,7,8,10) must refuse an illegal field and accept a legal one of >= 1024 bit with an exponent of <= 4 octets (legal fields below 1024 bit or with longer exponents, and the three-octet form for a short exponent, are not judged on acceptance); an all-0x5A signature must never verify; key_size and rsa_encode (also with leading zero octets to strip) agree with the hand computation; (c) ECDSA P-256/P-384 and Ed25519 public keys: exact, minus first/last octet, plus one octet at either end, SEC1 0x04 prefix, half, doubled, empty, each under algorithm numbers 13, 14, 15, 16: only the exact key under its own number verifies a signature made by the key and is importable with the secret key; resized signatures do not verify",
             "P1 (all sequences of 1..3 records x owners x owner case x entry points, with algorithms 13 and 15; sequences of 1..2 records with every algorithm) is run at TTL 3600 / first validity period / signer 'z.' / class IN; P2 crosses TTL, validity period, signer-name case (and class CH at the first validity period) with three representative sequences per type; sign_sorted_zone_records (entry 3) is run with the last algorithm of the menu only",
             "fault enumeration bases: duplicate-free sequences [v0], [v2,v0] (and [v3,v0,v2] thorough), lower-case owners; flips are single-bit; DNSKEY flags/protocol flips are recorded but not judged (not key material, not read by the primitives)",
             "P4: for every type with a domain name in its RDATA, every ordered pair over 27 mixed-case names (first label {a,A,b}^2, second label z/Z/y) put into each name field in turn, as a two-record RRset at the apex, through sign_rrset and the SortedRecords pipeline (algorithm 15; thorough also 13)",
